@@ -40,7 +40,7 @@ ErrPosed(L, cm, tr, um, us) == cm = "abort" /\ tr = -2 /\ um = "wait" /\ L >= 1 
 
 Sc(k, p, cs, us, cm, tr, um, sl) ==
     [kind |-> k, proxy |-> p, cseg |-> cs, hl |-> (IF k = "sni" THEN Len(HelloBytes) ELSE 0),
-     useg |-> us, cmode |-> cm, trig |-> tr, umode |-> um, uslow |-> sl]
+     useg |-> us, cmode |-> cm, trig |-> tr, umode |-> um, uslow |-> sl, rt |-> 0]
 Proxies(k) == IF k = "ws" THEN {0} ELSE {0, 1}
 CSegsOf(k) == UNION { Segs(s) : s \in CStreams(k) }
 USegsAll == UNION { Segs(s) : s \in UStreams }
@@ -55,12 +55,20 @@ MCErr == UNION { { Sc(k, p, cs, us, "abort", -2, "wait", 1) :
                      p \in Proxies(k), cs \in CSegsOf(k), us \in { u \in USegsAll : Len(u) = 2 } }
                : k \in Kinds }
 
+\* listeners with a read timeout: the reply comes while / after the client has been silent for longer
+\* than that (client half-closes and the upstream answers late; client listens to a late reply)
+MCTimeout == UNION { UNION { { [Sc(k, p, cs, us, c[1], c[2], c[3], 0) EXCEPT !.rt = 1] :
+                                 p \in Proxies(k), us \in { u \in USegsAll : u # <<>> },
+                                 c \in { <<"half", -1, "close">>, <<"wait", Len(Flatten(cs)), "close">> } }
+                           : cs \in CSegsOf(k) }
+                   : k \in Kinds \ {"ws"} }
+
 Valid(s) == \/ s.uslow = 0 /\ WellPosed(Len(Flatten(s.cseg)), s.cmode, s.trig, s.umode)
             \/ s.uslow = 1 /\ ErrPosed(Len(Flatten(s.cseg)) - s.hl, s.cmode, s.trig, s.umode, s.useg)
-MCValid == MCClean \cup { s \in MCErr : Valid(s) }
+MCValid == MCClean \cup { s \in MCErr : Valid(s) } \cup MCTimeout
 
 ScJson(s) == [kind |-> s.kind, proxy |-> s.proxy, cseg |-> s.cseg, hl |-> s.hl, useg |-> s.useg,
-              cmode |-> s.cmode, trig |-> s.trig, umode |-> s.umode, uslow |-> s.uslow]
+              cmode |-> s.cmode, trig |-> s.trig, umode |-> s.umode, uslow |-> s.uslow, rt |-> s.rt]
 
 \* generator: evaluated once per distinct state; prints at the terminal ones
 GenOut == Terminated => PrintT(ToJson([sc |-> ScJson(sc), usegs |-> USegs, ufree |-> UFree,
